@@ -37,6 +37,12 @@ def histories(rng, tier):
                     ("freq", shots // 4, (1 << n) - 1), ("seqfreq", shots // 4, hi | 1, 6), ("seqfreq", shots // 4, 6, hi | 1),
                     ("samplestats", 20000, 30 if tier == "quick" else 200)]
             hs.append((rng.randrange(1 << 30), acts))
+    # many more cells than parallel work pieces: 7-8 qubits under 2 and 3 workers, marginal spreads
+    for k, n in ((2, 8), (3, 7), (2, 7)):
+        if k in regcheck.thread_counts():
+            st = gen.random_state(rng, n) if k == 3 else [complex((1 << n) ** -0.5, 0)] * (1 << n)
+            hs.append((rng.randrange(1 << 30), [("raw", n, st), ("threads", k), ("dump",), ("probs",),
+                                                ("samplestats", 1 << 20, 60 if tier == "quick" else 300)]))
     return hs
 
 
@@ -105,6 +111,26 @@ def oracle(acts, recs):
                 hi = stats.chi2.ppf(1 - 1e-7, reps - 1) / (reps - 1) * 1.1
                 if tvar > 20 and not (lo < var / tvar < hi):
                     fails.append("cell %d: spread %.1f vs %.1f expected" % (i, var, tvar))
+        elif r[0] == "g":
+            # the cells' joint behaviour: the number of shots with qubit k = 1 has mean count * P(k = 1) and the
+            # binomial spread count * P (1 - P) (C07_histogram_moments: the covariance identity of the centred draws)
+            a = fr[fi - 1]
+            count, reps = a[1], a[2]
+            for k in range(len(r[1])):
+                pk = sum(pi for i, pi in enumerate(p) if (i >> k) & 1)
+                tvar = count * pk * (1 - pk)
+                if tvar < 50:
+                    continue
+                mean = r[1][k] / reps
+                var = max(r[2][k] / reps - mean * mean, 0.0)
+                z = (mean - count * pk) / math.sqrt(tvar / reps)
+                if abs(z) > 5.5:
+                    fails.append("shots with qubit %d set: mean %.2f vs %.2f expected (z = %.1f)" % (k, mean, count * pk, z))
+                lo = stats.chi2.ppf(1e-7, reps - 1) / (reps - 1) * 0.9
+                hi = stats.chi2.ppf(1 - 1e-7, reps - 1) / (reps - 1) * 1.1
+                if not (lo < var / tvar < hi):
+                    fails.append("shots with qubit %d set: spread %.1f vs %.1f expected (the cells do not vary independently "
+                                 "as the Born rule demands)" % (k, var, tvar))
         elif r[0] in ("x", "died"):
             fails.append("panic/abort %s" % (r,))
     return fails
